@@ -44,12 +44,17 @@ func run(c *core.Ctx, idx int) {
 		o := &gen.GeomOpts{Coord: gen.FiniteBitsCoord, MaxMembers: 3, MaxVerts: 4, MinVerts: 1, MinMembers: 1, MaxDepth: 2}
 		k := []int{gen.KMultiPoint, gen.KCollection, gen.KBounds}[r.Intn(3)]
 		g := gen.RandGeomKind(r, o, k, 0)
+		if r.Chance(0.1) {
+			g = nil // no geometry at all
+			c.Count("unsupported.nil_geometry")
+		}
 		detail := map[string]interface{}{"geometry": gen.Dump(g)}
 		c.Guard("wkt.Encode(unsupported)", detail, func() {
 			b, err := wkt.Encode(g)
 			if err == nil {
 				c.Violate(fmt.Sprintf("unsupported-accepted:%T", g), fmt.Sprintf("wkt.Encode(%T) returned text %q instead of an error", g, core.Trunc(string(b), 80)), detail)
 			} else {
+				_ = err.Error() // the error must be reportable
 				c.Count("unsupported.rejected")
 			}
 		})
